@@ -16,9 +16,12 @@ OBLIGATIONS = ["delivered_exactly_once", "queue_sorted_by_priority", "next_takes
                "fifo_per_destination_and_type", "late_registration_in_order",
                "shutdown_drains", "threads_queue_discipline", "counter_race_possible",
                "mt_delivered_exactly_once", "mt_priority", "mt_fifo_per_sender_type",
-               "mt_fifo_unlocked_refuted", "mt_shutdown_drains", "mt_shutdown_oldloop_refuted"]
+               "mt_fifo_unlocked_refuted", "mt_shutdown_drains", "mt_shutdown_oldloop_refuted",
+               "mt_fifo_put_order", "mt_lock_released", "mt_late_registration_refuted",
+               "mt_registration_conserves"]
 N_QUICK, N_THOROUGH = 330, 5000
 SHARD = 120
+PARALLEL = 4
 RULE = ("sequential: seeded histories (0-45 ops) of Post / Register (local or remote agent) / Unregister / "
         "Next / Shutdown / Drain over 5 computations, 6 sender names (one never registered), message types "
         "None/5/10/15/20/25, a few duplicated (equal) messages, on a real Agent + Messaging + Discovery + "
@@ -166,9 +169,18 @@ def _gen_mt(rng):
 
 
 
+def _gen_reg(rng):
+    where = rng.choice(["before_subscribe", "after_subscribe", "direct_before_replay"])
+    return dict(kind="reg", where=where, n=rng.randint(2 if where == "direct_before_replay" else 1, 4),
+                ty=rng.choice([None, 10]))
+
+
 def gen(rng, n, tier):
     cases = []
     for i in range(n):
+        if i % 110 == 27:
+            cases.append(_gen_reg(rng))      # known finding C18-registration-races-with-deferring-post
+            continue
         cases.append(_gen_thr(rng) if i % 11 == 10 else _gen_mt(rng) if i % 11 == 5 else _gen_seq(rng))
     return cases
 
@@ -635,7 +647,85 @@ def _run_mt(case):
 
 
 
+def _run_reg(case):
+    """Forced interleavings of Discovery.register_computation with posts to the late destination:
+    the destination registers (from another thread, to completion) while the first post_msg to it is
+    between its unknown-destination test and the deferral (before / after it subscribed), or the
+    sender's second post runs between the table write and the replay of its deferred first one."""
+    from pydcop.infrastructure.computations import Message
+    a, b, Rec, trace = _setup(senders=False)
+    ms, disc = a._messaging, a.discovery
+    fired = []
+    n, ty, where = case["n"], case["ty"], case["where"]
+
+    def register():
+        comp = Rec(_name(10), A)
+        comp.start()
+        a.add_computation(comp, publish=False)
+
+    def once_in_other_thread(f):
+        if not fired:
+            fired.append(1)
+            t = threading.Thread(target=f, daemon=True)
+            t.start()
+            t.join(30)
+
+    def post(k):
+        ms.post_msg(_name(41), _name(10), Message("m", k), ty)
+
+    if where == "direct_before_replay":
+        real_cb = ms._on_computation_registration
+
+        def cb(evt, comp, agent):
+            once_in_other_thread(lambda: post(2))
+            return real_cb(evt, comp, agent)
+        ms._on_computation_registration = cb          # post_msg subscribes this attribute
+        post(1)
+        register()
+        rest = range(3, n + 1)
+    else:
+        real_sub = disc.subscribe_computation
+
+        def sub(comp, cb=None, one_shot=False):
+            if where == "before_subscribe":
+                once_in_other_thread(register)
+                return real_sub(comp, cb, one_shot)
+            r = real_sub(comp, cb, one_shot)
+            once_in_other_thread(register)
+            return r
+        disc.subscribe_computation = sub
+        post(1)
+        rest = range(2, n + 1)
+    for k in rest:
+        post(k)
+    try:
+        registered = disc.computation_agent(_name(10))
+    except Exception:                              # noqa: BLE001
+        registered = None
+    a.start()
+    a.clean_shutdown()
+    a.join()
+    return dict(handled=trace[A], deferred=[m.content for _, _, m, _, _ in ms._failed], registered=registered,
+                left=ms._queue.qsize())
+
+
+def _oracle_reg(case, o):
+    want = [[41, 10, k + 1] for k in range(case["n"])]
+    if o["registered"] == "a1" and o["deferred"]:
+        return ("late registration race: messages %r for c10 still deferred although c10 is registered on a1 "
+                "(it registered %s of the first post)" % (o["deferred"], case["where"].replace("_", " ")))
+    if o["handled"] != want and sorted(o["handled"]) == want and not o["left"]:
+        return ("late registration race: sender c41's posts were handled in the order %r (a direct post "
+                "overtook the deferred one that the registering thread was about to replay)"
+                % [m for _, _, m in o["handled"]])
+    if o["handled"] != want or o["left"]:
+        return "late registration: handled %r, posted %r" % (o["handled"], want)
+    return None
+
+
 def run_impl(case):
+    if case["kind"] == "reg":
+        return _run_reg(case)
     if case["kind"] == "mt":
         return _run_mt(case)
     return _run_seq(case) if case["kind"] == "seq" else _run_thr(case)
@@ -863,12 +953,16 @@ def _oracle_mt(case, o):
 
 
 def oracle(case, o):
+    if case["kind"] == "reg":
+        return _oracle_reg(case, o)
     if case["kind"] == "mt":
         return _oracle_mt(case, o)
     return _oracle_seq(case, o) if case["kind"] == "seq" else _oracle_thr(case, o)
 
 
 def classify(case, o, msg):
+    if case.get("kind") == "reg" and isinstance(msg, str) and msg.startswith("late registration race:"):
+        return "C18-registration-races-with-deferring-post"
     return None
 
 
@@ -897,6 +991,8 @@ _OUT = {"dropped": "ODropped", "deferred": "ODeferred", "queued": "OQueued", "se
 
 
 def coq_case(case, o):
+    if case["kind"] == "reg":
+        return _coq_reg(case, o)
     if case["kind"] == "mt":
         return _coq_mt(case, o)
     return "COld (%s)" % _coq_old(case, o)
@@ -970,7 +1066,23 @@ def _coq_mt(case, o):
         q.nat(o["left"]), q.b(o["done"]))
 
 
+def _coq_reg(case, o):
+    """The forced interleaving is known by construction: the schedule of the registration model."""
+    n, where = case["n"], case["where"]
+    P, R = "RCPost 0%nat", "RCReg"
+    if where == "before_subscribe":
+        sched = [P] + [R] * 3 + [P, P] + [P, P] * (n - 1)
+    elif where == "after_subscribe":
+        sched = [P, P] + [R] * 5 + [P] + [P, P] * (n - 1)
+    else:
+        sched = [P] * 3 + [R] + [P, P] + [R] * 6 + [P, P] * (n - 2)
+    return "CReg (mkRC %s %s %s %s)" % (q.lst([q.zlist(range(1, n + 1))]), q.lst(sched), q.zlist(o["deferred"]),
+                                        q.zlist([m for _, _, m in o["handled"]]))
+
+
 def nontrivial(case, o):
+    if case["kind"] == "reg":
+        return True
     if case["kind"] == "mt":
         return len(o.get("handled", [])) >= 3 and len(o.get("events", [])) >= 30
     if case["kind"] == "thr":
@@ -981,12 +1093,14 @@ def nontrivial(case, o):
 def histogram(cases, obs):
     h = {"seq": 0, "thr": 0, "deferred": 0, "replayed_local": 0, "sent_remote": 0, "raised": 0,
          "shutdown": 0, "dropped": 0, "handled>=5": 0, "thr_gets_interleaved": 0,
-         "mt": 0, "mt_forced_counter": 0, "mt_forced_shutdown": 0, "mt_early_shutdown": 0, "mt_posts_dropped": 0,
+         "reg": 0, "mt": 0, "mt_forced_counter": 0, "mt_forced_shutdown": 0, "mt_early_shutdown": 0, "mt_posts_dropped": 0,
          "mt_left_in_queue": 0, "mt_switch_inside_post": 0, "mt_lock_contended": 0}
     for c, o in zip(cases, obs):
         if not isinstance(o, dict) or "__driver_error__" in o:
             continue
         h[c["kind"]] += 1
+        if c["kind"] == "reg":
+            continue
         if c["kind"] == "mt":
             h["mt_forced_counter"] += c["force"] == "counter"
             h["mt_forced_shutdown"] += c["force"] == "shutdown"
@@ -1031,7 +1145,10 @@ def histogram(cases, obs):
 
 
 def shrink_candidates(case):
-    if case["kind"] == "seq":
+    if case["kind"] == "reg":
+        if case["n"] > 1:
+            yield dict(case, n=case["n"] - 1)
+    elif case["kind"] == "seq":
         ops = case["ops"]
         for i in range(len(ops)):
             yield dict(kind="seq", ops=ops[:i] + ops[i + 1:])
